@@ -159,6 +159,23 @@ def fam_C06(tier, seed):
         else:
             b.con(cls, res=r, distance=1, mode="exact", has_intervals=False, intervals=[])
         ps.append(b.done())
+    # an optional task whose assignment is shifted (delay_in / early_out): left out, it leaves no busy interval behind
+    for (din, eout), ctx, opt2 in itertools.product([(1, 0), (0, 1), (1, 1), (2, 0)], ("plain", "nondelay", "cost", "unavailable"), (False, True)):
+        b = PB(5, tag="opt-shifted")
+        a = b.task("A", "F", dur=3, optional=True)
+        c = b.task("B", "F", dur=1, optional=opt2)
+        w = b.worker("W", cost=("lin", 1, 1) if ctx == "cost" else None)
+        b.require(a, worker=w, delay_in=din, early_out=eout)
+        b.require(c, worker=w)
+        if ctx == "nondelay":
+            b.con("ResourceNonDelay", res=res_worker(w))
+        elif ctx == "unavailable":
+            b.con("ResourceUnavailable", res=res_worker(w), intervals=[[0, 1]])
+        elif ctx == "cost":
+            b.ind("IndicatorResourceCost", ress=[res_worker(w)])
+            b.ind("IndicatorResourceUtilization", res=res_worker(w))
+            b.ind("IndicatorNumberTasksAssigned", res=res_worker(w))
+        ps.append(b.done())
     # SameWorkers / DistinctWorkers between the selections of two tasks, one or both optional: a task that is left
     # out selects nobody
     for cls, opts, (n1, k1), (n2, k2) in itertools.product(("SameWorkers", "DistinctWorkers"), [(False, True), (True, True), (True, False)],
